@@ -9,7 +9,7 @@ import os
 from trlib import TranslateError, _parse
 
 PARAMS = ('lam', 'p', 'quantile', 'eta', 'diff_order', 'poly_order', 'num_knots', 'spline_degree',
-          'half_window')
+          'half_window', 'max_half_window', 'min_half_window')
 MODS_1D = ('whittaker', 'spline', 'morphological', 'smooth', 'polynomial', 'classification', 'misc',
            'optimizers')
 MODS_2D = ('whittaker', 'spline', 'morphological', 'smooth', 'polynomial', 'optimizers')
@@ -487,6 +487,10 @@ def gen_routing(repo=None):
     out.append(';\n'.join(array_entries(repo) + forwarded_entries(repo)))
     out.append('].')
     out.append('')
+    out.append('Definition hw_sites : list (bool * string * string * string * bool * bool) := [')
+    out.append(';\n'.join(hw_site_entries(repo)))
+    out.append('].')
+    out.append('')
     out.append('Definition finite_routing : list centry := [')
     out.append(';\n'.join(finite_entries(repo)))
     out.append('].')
@@ -664,6 +668,35 @@ def finite_entries(repo):
                                       for kw in node.keywords)
                             entries.append(f'  {{| c_two_d := {_b(two_d)}; c_module := "{mod}"; c_fn := "{fn.name}"; '
                                            f'c_callee := "{node.func.id}"; c_forwarded := {_b(fwd)} |}}')
+    return entries
+
+
+# ------------------------------------------------------------------------------------------------
+# every call site of _check_half_window (wrapper setups and method bodies) with the flags it passes
+def hw_site_entries(repo):
+    entries = []
+    for two_d in (False, True):
+        rels = [(f'pybaselines/{"two_d/" if two_d else ""}_algorithm_setup.py', '_algorithm_setup')]
+        rels += [(f'pybaselines/{"two_d/" if two_d else ""}{m}.py', m) for m in (MODS_2D if two_d else MODS_1D)]
+        for rel, mod in rels:
+            tree, _ = _parse(rel, repo)
+            for cnode in tree.body:
+                if not isinstance(cnode, ast.ClassDef):
+                    continue
+                for fn in cnode.body:
+                    if not isinstance(fn, ast.FunctionDef):
+                        continue
+                    sites = [n for n in ast.walk(fn) if isinstance(n, ast.Call) and isinstance(n.func, ast.Name)
+                             and n.func.id == '_check_half_window']
+                    for node in sorted(sites, key=lambda n: (n.lineno, n.col_offset)):
+                        if not node.args:
+                            raise TranslateError(f'_check_half_window without positional argument (line {node.lineno})')
+                        az = _kw_bool(node, 'allow_zero', False, 1)
+                        td = _kw_bool(node, 'two_d', False, 2)
+                        if isinstance(az, tuple) or isinstance(td, tuple):
+                            raise TranslateError(f'_check_half_window flag given by a variable (line {node.lineno})')
+                        arg = ast.unparse(node.args[0]).replace('"', "'")
+                        entries.append(f'  ({_b(two_d)}, "{mod}", "{fn.name}", "{arg}", {_b(az)}, {_b(td)})')
     return entries
 
 
